@@ -28,6 +28,8 @@ def check(ctx, rep, tier):
                  "yielded value")
     rep.describe("zero-means-unlimited", "the closure never raises for timeout 0 and can raise "
                  "for a positive timeout (abstract interpretation of the closure)")
+    rep.describe("from-start", "the deadline closure compares <clock now> - START with the timeout, where "
+                 "START is read once from the clock when the closure is made and never written afterwards")
     rep.describe("best-so-far", "the single-result entry point selects from whatever the stream "
                  "yielded (shared with C14)")
     cm = ctx.imod("ctparse.ctparse")
@@ -37,6 +39,7 @@ def check(ctx, rep, tier):
     _contained(ctx, rep, cm, f, closure)
     _noninterference(ctx, rep, cm, f, closure)
     _zero(ctx, rep)
+    _from_start(ctx, rep)
     _best(ctx, rep, cm)
     rep.assume("not decided: how long a single uninterruptible step (one regex scan, one rule "
                "expansion over rules x windows) takes")
@@ -366,6 +369,76 @@ def _zero(ctx, rep):
             rep.add("zero-means-unlimited", c, tm.where(outer), ok,
                     "" if ok else ("the closure can raise although the timeout is 0" if raises
                                    else "the closure can never raise for a positive timeout"))
+
+
+CLOCKS = ("perf_counter", "monotonic", "time", "process_time")
+
+
+def _from_start(ctx, rep):
+    """The deadline is measured from the creation of the closure: the closure compares
+    <clock now> - START with the timeout, START being a variable of timeout() that is set once
+    from the clock and never written by the closure."""
+    tm = ctx.imod("ctparse.timers")
+    outer = tm.func("timeout")
+    inner = None
+    for r in ast.walk(outer):
+        if isinstance(r, ast.Return) and isinstance(r.value, ast.Name):
+            cand = tm.funcs.get("timeout." + r.value.id)
+            if cand is not None:
+                inner = cand
+    c = tm.rel + "::timeout::deadline measured from the start"
+    if inner is None:
+        rep.undecided("from-start", c, tm.where(outer), "what timeout() returns is not a nested function")
+        return
+    tparam = outer.args.args[0].arg if outer.args.args else None
+
+    def is_clock(e):
+        return isinstance(e, ast.Call) and e1.callee_name(e.func) in CLOCKS
+
+    # variables of the closure bound to an expression (resolved one level)
+    local = {}
+    for a in ast.walk(inner):
+        if isinstance(a, ast.Assign) and len(a.targets) == 1 and isinstance(a.targets[0], ast.Name):
+            local.setdefault(a.targets[0].id, []).append(a.value)
+
+    def resolve(e):
+        if isinstance(e, ast.Name) and len(local.get(e.id, [])) == 1:
+            return local[e.id][0]
+        return e
+    written = {n_ for st_ in ast.walk(inner) if isinstance(st_, ast.Nonlocal) for n_ in st_.names}
+    verdict = None
+    detail = ""
+    for cmp_ in ast.walk(inner):
+        if not (isinstance(cmp_, ast.Compare) and len(cmp_.ops) == 1):
+            continue
+        sides = [cmp_.left, cmp_.comparators[0]]
+        if not any(isinstance(s_, ast.Name) and s_.id == tparam for s_ in sides):
+            continue
+        if isinstance(cmp_.ops[0], (ast.Eq, ast.NotEq, ast.Is, ast.IsNot)):
+            continue      # the "0 means no limit" test
+        other = resolve([s_ for s_ in sides if not (isinstance(s_, ast.Name) and s_.id == tparam)][0])
+        if isinstance(other, ast.BinOp) and isinstance(other.op, ast.Sub) and is_clock(resolve(other.left)) \
+                and isinstance(other.right, ast.Name):
+            start = other.right.id
+            sets = [a for a in ast.walk(outer) if isinstance(a, ast.Assign) and any(
+                isinstance(t_, ast.Name) and t_.id == start for t_ in a.targets)]
+            in_outer_only = [a for a in sets if not any(a is x for x in ast.walk(inner))]
+            if start in written or len(sets) != len(in_outer_only):
+                verdict = False
+                detail = "the closure moves its own starting point '{}': the deadline is measured from the " \
+                         "previous check, not from the start".format(start)
+            elif len(in_outer_only) == 1 and is_clock(in_outer_only[0].value):
+                verdict = True if verdict is None else verdict
+            else:
+                verdict = verdict
+                detail = detail or "starting point '{}' is not one clock reading taken when the closure is made".format(start)
+        else:
+            detail = detail or "elapsed time is computed as {}".format(ast.unparse(other)[:60])
+    if verdict is None:
+        rep.undecided("from-start", c, tm.where(inner), "the comparison of the elapsed time with the timeout is not "
+                      "recognised" + (": " + detail if detail else ""))
+    else:
+        rep.add("from-start", c, tm.where(inner), verdict, detail if not verdict else "")
 
 
 def _best(ctx, rep, cm):
